@@ -158,6 +158,13 @@ func VerifC12IdentityParams() {
 		pn.MultipleOf, pnB.MultipleOf = &m1, &m2
 	}
 	ps2 := vQueryParam("s", "string", s.format, s.required, s.validations())
+	// a default next to any required flag (required + default is legal swagger 2.0)
+	if vBool2("defaults") {
+		pn.Default, pnB.Default = 1.0, 1.0
+		if len(ps.Enum) == 0 {
+			ps.Default, ps2.Default = "x", "x"
+		}
+	}
 	if len(ps.Enum) == 2 {
 		ps2.Enum = []interface{}{ps.Enum[1], ps.Enum[0]}
 		vCover("enum-permuted")
@@ -267,4 +274,80 @@ func VerifC12IdentityRefNames() {
 	vAssert(err == nil, "Compare failed on identical specs")
 	vObserve("ndiffs", len(diffs))
 	vAssert(len(diffs) == 0, "a spec whose definition names are not plain identifiers differs from itself")
+}
+
+func init() { vRegister("VerifC12Extensions", VerifC12Extensions) }
+
+// C12 identity/totality with vendor extensions: an extension of any JSON type (boolean, text,
+// number, null, list, object), under a usual key, at spec / path item / operation / parameter /
+// response / header level, on either side: the comparison never crashes, and the same value on
+// both sides is no difference.
+func VerifC12Extensions() {
+	key := []string{"x-a", "x-deprecated", "x-nullable", "x-internal"}[vChoice("key", 4)]
+	where := vChoice("where", 6)
+	val := func(k int) (interface{}, bool) {
+		switch k {
+		case 1:
+			return true, true
+		case 2:
+			return "yes", true
+		case 3:
+			return 3.0, true
+		case 4:
+			return nil, true
+		case 5:
+			return []interface{}{1.0}, true
+		case 6:
+			return map[string]interface{}{"k": "v"}, true
+		}
+		return nil, false
+	}
+	build := func(k int) *spec.Swagger {
+		p := vQueryParam("p", "string", "", false, spec.CommonValidations{})
+		sw := vSpecWithParams(p)
+		v, has := val(k)
+		if !has {
+			return sw
+		}
+		ext := spec.Extensions{key: v}
+		pi := sw.Paths.Paths["/a"]
+		switch where {
+		case 0:
+			sw.Extensions = ext
+		case 1:
+			pi.Extensions = ext
+		case 2:
+			pi.Get.Extensions = ext
+		case 3:
+			pi.Get.Parameters[0].Extensions = ext
+		case 4:
+			r := pi.Get.Responses.StatusCodeResponses[200]
+			r.Extensions = ext
+			pi.Get.Responses.StatusCodeResponses[200] = r
+		default:
+			r := pi.Get.Responses.StatusCodeResponses[200]
+			h := spec.Header{}
+			h.Type = "string"
+			h.Extensions = ext
+			r.Headers = map[string]spec.Header{"X-H": h}
+			pi.Get.Responses.StatusCodeResponses[200] = r
+		}
+		sw.Paths.Paths["/a"] = pi
+		return sw
+	}
+	ka, kb := vChoice("a.value", 7), vChoice("b.value", 7)
+	a, b := build(ka), build(kb)
+	vCover("built")
+	diffs, err := Compare(a, b)
+	vAssert(err == nil, "Compare failed on a spec with a vendor extension")
+	vObserve("ndiffs", len(diffs))
+	if ka == kb {
+		vAssert(len(diffs) == 0, "a spec with a vendor extension differs from a copy of itself")
+	}
+	// an endpoint that disappears while it carries the extension (the deleted-endpoint classification reads the old side)
+	if kb == 0 {
+		delete(b.Paths.Paths, "/a")
+		_, err = Compare(a, b)
+		vAssert(err == nil, "Compare failed on a deleted endpoint with a vendor extension")
+	}
 }
